@@ -19,6 +19,7 @@ type TV struct {
 }
 
 type SpecEnv struct {
+	assumeLocks bool // evaluating the precondition of the function under verification: holds(x) defines the entry lockset
 	ex   *Exec
 	st   *State
 	old  *FullSnapshot
@@ -344,6 +345,11 @@ func (env *SpecEnv) resolveType(e ast.Expr) types.Type {
 			if t := env.resolveType(x.Elt); t != nil {
 				return types.NewSlice(t)
 			}
+		} else if bl, ok := x.Len.(*ast.BasicLit); ok {
+			n, err := strconv.ParseInt(bl.Value, 0, 64)
+			if t := env.resolveType(x.Elt); t != nil && err == nil {
+				return types.NewArray(t, n)
+			}
 		}
 	case *ast.ParenExpr:
 		return env.resolveType(x.X)
@@ -558,8 +564,13 @@ func (env *SpecEnv) ghostField(base TV, name string) TV {
 	if pt, ok := under(t).(*types.Pointer); ok {
 		t = pt.Elem()
 	}
-	p, ok := base.V.(*PtrV)
-	if !ok {
+	var key *Term
+	switch b := base.V.(type) {
+	case *PtrV:
+		key = ptrTerm(b)
+	case IfaceV:
+		key = b.Val
+	default:
 		tool("spec: ghost field of non-pointer")
 	}
 	tn := typeName(t)
@@ -576,7 +587,7 @@ func (env *SpecEnv) ghostField(base TV, name string) TV {
 		gt = types.Typ[types.Bool]
 	}
 	h := env.st.heapGet(tn+".$"+name, SArr(SInt, srt))
-	return TV{Scalar{Select(h, ptrTerm(p))}, gt}
+	return TV{Scalar{Select(h, key)}, gt}
 }
 
 func (env *SpecEnv) ghostType(name string) types.Type {
@@ -626,6 +637,27 @@ func (env *SpecEnv) setGhostGlobal(name string, v TV) {
 		h := env.st.heapGet("G:$"+name+c.Suffix, SArr(SInt, c.Sort))
 		env.st.Heap["G:$"+name+c.Suffix] = Store(h, Zero, fl[i])
 	}
+}
+
+// lvaluePtr evaluates an expression denoting a mutex: a struct-typed field yields its address, a
+// pointer-typed expression its value.
+func (env *SpecEnv) lvaluePtr(e ast.Expr) TV {
+	if sel, ok := e.(*ast.SelectorExpr); ok {
+		base := env.eval(sel.X)
+		if pt, ok := under(base.T).(*types.Pointer); ok {
+			if st, ok := under(pt.Elem()).(*types.Struct); ok {
+				if p, ok := base.V.(*PtrV); ok {
+					for i := 0; i < st.NumFields(); i++ {
+						if st.Field(i).Name() == sel.Sel.Name && isStructT(st.Field(i).Type()) {
+							fp := env.ex.fieldAddrNoAssume(p, i)
+							return TV{fp, types.NewPointer(st.Field(i).Type())}
+						}
+					}
+				}
+			}
+		}
+	}
+	return env.eval(e)
 }
 
 func isNilTV(tv TV) bool { return tv.V == nil && tv.T == nil }
@@ -861,12 +893,22 @@ func (env *SpecEnv) evalCall(c *ast.CallExpr) TV {
 				cs = append(cs, inner.evalBoolT(cl.Expr))
 			}
 			return TV{Scalar{And(cs...)}, boolT}
-		case "holds":
-			p := env.eval(c.Args[0])
-			return TV{Scalar{BoolLit(env.st.Locks[lockKey(p)] == 2)}, boolT}
-		case "holdsR":
-			p := env.eval(c.Args[0])
-			return TV{Scalar{BoolLit(env.st.Locks[lockKey(p)] >= 1)}, boolT}
+		case "holds", "holdsR":
+			p := env.lvaluePtr(c.Args[0])
+			want := 2
+			if id.Name == "holdsR" {
+				want = 1
+			}
+			if env.assumeLocks {
+				env.st.Locks[lockKey(p)] = want
+				if pv, ok := p.V.(*PtrV); ok {
+					if owner, tn, mu, ok := env.ex.monitorOwner(pv); ok {
+						env.st.Held = append(env.st.Held, heldMon{owner, tn, mu, lockKey(p)})
+					}
+				}
+				return TV{Scalar{True}, boolT}
+			}
+			return TV{Scalar{BoolLit(env.st.Locks[lockKey(p)] >= want)}, boolT}
 		case "nolocks":
 			n := 0
 			for _, v := range env.st.Locks {
@@ -890,6 +932,8 @@ func (env *SpecEnv) evalCall(c *ast.CallExpr) TV {
 				return TV{Scalar{Lt(fr, v.Arr)}, boolT}
 			case Scalar:
 				return TV{Scalar{Lt(fr, v.T)}, boolT}
+			case IfaceV:
+				return TV{Scalar{Lt(fr, v.Val)}, boolT}
 			}
 			tool("spec: fresh of %T", p.V)
 		case "sat":
